@@ -117,17 +117,23 @@ class C07(layfamily.Family):
         spec["body"]["border_last"] = bl
         ncols = len(spec["df"]["cols"])
         user = {}
+        top0 = False
         if rng.random() < 0.6:
             sides = ["border_left", "border_right"] if empties else ["border_top", "border_bottom", "border_left", "border_right"]
             for side in rng.sample(sides, rng.randint(1, min(3, len(sides)))):
                 # a full per-row matrix, or a short pattern of 2-3 rows that rtflite recycles over the table rows
                 nr = n if rng.random() < 0.65 else rng.choice([2, 3])
                 m = [[rng.choice(STYLES + ["", ""]) for _ in range(ncols)] for _ in range(nr)]
-                if side == "border_top":
+                if side == "border_top" and k % 6 != 5:
                     m[0] = [""] * ncols     # see MANIFEST note: keep table row 0 empty
+                elif side == "border_top":
+                    # every sixth document keeps a non-empty TABLE row 0 in border_top: the code then lets it override
+                    # body.border_first on every page when that row is longer than the border_first row (modelled rule);
+                    # such documents are compared with the model only (the top-edge clause of the oracle is skipped)
+                    top0 = True
                 spec["body"][side] = m
                 user[side] = m
-        info.update(pf=pf, pl=plast, bf=bf, bl=bl, user=sorted(user))
+        info.update(pf=pf, pl=plast, bf=bf, bl=bl, user=sorted(user), top0=top0)
         return spec, info
 
     # ------------------------------------------------------------------ observation helpers
@@ -184,6 +190,8 @@ class C07(layfamily.Family):
                     want_top = None
             else:
                 want_top = info["bf"]
+            if info.get("top0"):
+                want_top = None        # the override rule for a non-empty table row 0 is judged against the model only
             if want_top is not None:
                 got = self.edges(fd_r, "t")
                 if any(x != code(want_top) for x in got):
